@@ -42,13 +42,18 @@ pub fn prefix_ops(info: &TypeInfo, words: usize, half: bool) -> Vec<Op> {
 }
 
 pub fn explore_maker(mk: &dyn Maker, depth: usize, ctx: &Ctx, prop: &str, alphabet: &[Op], stream_words: usize) -> Stats {
+    let starts = start_prefixes_ext(mk.info(), true);
+    explore_maker_from(mk, &starts, depth, ctx, prop, alphabet, stream_words)
+}
+
+pub fn explore_maker_from(mk: &dyn Maker, starts: &[(usize, bool)], depth: usize, ctx: &Ctx, prop: &str, alphabet: &[Op], stream_words: usize) -> Stats {
     let info = mk.info();
     let native = histories::native_stream(mk, stream_words);
     let own = if info.u32_proj == 'm' { Some(histories::own_u32_stream(mk, stream_words)) } else { None };
     let stream = Stream { info, native: &native, own_u32: own.as_deref() };
     let future = info.block_words.unwrap_or(2) + 2;
     let mut stats = Stats::default();
-    for (w, half) in start_prefixes_ext(info, true) {
+    for &(w, half) in starts {
         let prefix = prefix_ops(info, w, half);
         let start = Pos { words: (w + half as usize) as u64, half };
         if own.is_some() && start.words as usize + future + 4 > stream_words {
@@ -77,7 +82,7 @@ pub fn run(reg: &dyn Registry, ctx: &Ctx) -> Outcome {
             let mk = SeedMaker { ty, seed: seed.clone() };
             let alphabet = histories::output_alphabet(info);
             let maxw = alphabet.iter().map(|o| match o {
-                Op::Fill(n) => (*n + 3) / (info.word_bits / 8),
+                Op::Fill(n) | Op::FillAt(n, _) => (*n + 3) / (info.word_bits / 8),
                 _ => 2,
             }).max().unwrap();
             let words = info.block_words.unwrap_or(3) + 2 + depth * (maxw + 1) + info.block_words.unwrap_or(2) + 16;
@@ -102,6 +107,31 @@ pub fn run(reg: &dyn Registry, ctx: &Ctx) -> Outcome {
     for s in &results {
         add(&mut total, s);
     }
+    // every buffer index of the block generators as a start position (with and without a pending half
+    // for ISAAC-64), every call shape from there and every pair of calls (depth 2)
+    {
+        let all_idx: Vec<Stats> = types
+            .par_iter()
+            .filter(|t| t.info().block_words.is_some())
+            .map(|ty| {
+                let info = ty.info();
+                let b = info.block_words.unwrap();
+                let mut starts: Vec<(usize, bool)> = (0..=b + 1).map(|w| (w, false)).collect();
+                if info.family == Family::Isaac64 {
+                    starts.extend((0..=b).map(|w| (w, true)));
+                }
+                let mk = SeedMaker { ty: *ty, seed: standard_seeds(*ty, ctx.seed)[2].clone() };
+                let alphabet: Vec<Op> = histories::output_alphabet(info).into_iter().filter(|o| !matches!(o, Op::Fill(n) | Op::FillAt(n, _) if *n >= 8192)).collect();
+                let maxw = alphabet.iter().map(|o| match o { Op::Fill(n) | Op::FillAt(n, _) => (*n + 3) / (info.word_bits / 8), _ => 2 }).max().unwrap();
+                let words = b + 4 + 2 * (maxw + 1) + b + 16;
+                explore_maker_from(&mk, &starts, 2, ctx, "C05", &alphabet, words)
+            })
+            .collect();
+        for s in &all_idx {
+            add(&mut total, s);
+        }
+        ctx.set("every_buffer_index_explorations", all_idx.len() as u64);
+    }
     // deep stream positions: the same exploration started 1000 (and, thorough, 65536) blocks in
     {
         let thorough = ctx.tier == crate::evidence::Tier::Thorough;
@@ -116,7 +146,7 @@ pub fn run(reg: &dyn Registry, ctx: &Ctx) -> Outcome {
                     .map(|&blocks| {
                         let mk = DeepMaker { ty: *ty, seed: standard_seeds(*ty, ctx.seed)[1].clone(), skip_bytes: blocks * bb };
                         let alphabet = histories::output_alphabet(info);
-                        let maxw = alphabet.iter().map(|o| match o { Op::Fill(n) => (*n + 3) / (info.word_bits / 8), _ => 2 }).max().unwrap();
+                        let maxw = alphabet.iter().map(|o| match o { Op::Fill(n) | Op::FillAt(n, _) => (*n + 3) / (info.word_bits / 8), _ => 2 }).max().unwrap();
                         let d = 2; // every rebuild replays the skip
                         let words = info.block_words.unwrap() + 2 + d * (maxw + 1) + info.block_words.unwrap() + 16;
                         explore_maker(&mk, d, ctx, "C05", &alphabet, words)
@@ -239,7 +269,7 @@ pub fn run(reg: &dyn Registry, ctx: &Ctx) -> Outcome {
             traces: "transitions",
             evaluations: "transitions",
             distinct: "distinct_observations",
-            rule: format!("explicit-state BFS over all histories of next_u32/next_u64/fill_bytes(n) up to depth {} from 3 seeds x every start offset (fresh, mid-block, last words of a block, with and without a pending half word) for 20 seedable types and JitterRng (rounds 1..3); states = distinct (words consumed, half pending) keys per start, merged only after a state-equality check; every transition is executed on the real code and compared with the stated projection of the native twin's stream, followed by block+2 words of the future; distinct = distinct observations returned", depth),
+            rule: format!("explicit-state BFS over all histories of next_u32/next_u64/fill_bytes(n) up to depth {} from 3 seeds x every start offset (fresh, mid-block, last words of a block, with and without a pending half word; plus depth 2 from every buffer index of the block generators) for 20 seedable types and JitterRng (rounds 1..3); states = distinct (words consumed, half pending) keys per start, merged only after a state-equality check; every transition is executed on the real code and compared with the stated projection of the native twin's stream, followed by block+2 words of the future; distinct = distinct observations returned", depth),
         },
     }
 }
